@@ -388,6 +388,7 @@ UNITS['U27k'] = dict(
     kind='kani', crate='kani/U27', timeout_s=600, mem_gb=8,
     title='row count of the NULL column that stands in for a column missing from a partition: compile_expr choice per filter kind (slice) x query_plan::prepare decoding of source_type (slice) x Filter::apply_filter (complete)',
     harnesses=[dict(name='proofs::missing_column_rows_match_filter', clause='per filter kind: real columns go through Filter / NullableFilter / Select / Empty and the stand-in NULL column takes its length from NonZeroU8ElementCount / NonNullElementCount / InputLength / 0 / partition length respectively', fn='compile_expr[slice] / prepare[slice] / Filter::apply_filter'),
+               dict(name='proofs::key_field_is_filtered_once', clause='for every filter kind, key type (narrow / i64 / nullable / missing column) and offset choice: the packed-key field has exactly one row filter between it and the partition rows (none without WHERE)', fn='try_bitpacking[slice: key field] + Filter::apply_filter'),
                dict(name='proofs::order_by_path_for_every_key_type', unwind=4, clause='for every key type, LIMIT and partition length: top_n (only for one key and LIMIT < len/2, over a key whose type has a fused-NULL representation) or a stable sort_by; never a panic', fn='NormalFormQuery::run[slice: top-n or sort] + EncodingType::nullable_fused'),
                dict(name='proofs::vx_canary', expect_fail=True)],
     assumptions=['A-astbuilder: the generated planner methods (null_vec, null_vec_like, filter, nullable_filter, select, empty, fuse_nulls, top_n, indices, sort_by) build the node named after them from their arguments in order; recording stand-ins',
@@ -515,7 +516,7 @@ PROPS = {
                 level_note='per-partition planning, executor streaming, disk read scheduling and thread count are glue and not covered: the check catches a broken merge/combine primitive or a broken key-merge chain, not a broken executor',
                 technique='contract-based deductive verification (Verus + Kani complete harnesses) of extracted functions',
                 assumptions=[], not_covered=['executor stage partitioning / streaming', 'batch_merging::combine: ORDER BY branch and single-key branch', 'disk read scheduler']),
-    'C04': dict(level='proof', units=['U09k', 'U09v', 'U09m', 'U10', 'U19', 'U20k', 'U01', 'U29', 'U31k', 'U32k', 'U33'],
+    'C04': dict(level='proof', units=['U09k', 'U09v', 'U09m', 'U10', 'U19', 'U20k', 'U01', 'U29', 'U31k', 'U32k', 'U33', 'U27k'],
                 level_text='complete Kani proofs of accumulate/combine kernels; Verus proofs of dedup-merge / merge_drop / merge_keep kernels and bitmap primitives',
                 level_note='grouping-key construction, hash-map grouping and the final pass are not covered',
                 technique='contract-based deductive verification (Verus + Kani complete harnesses) of extracted functions',
